@@ -351,12 +351,13 @@ func (d *Driver) mergeScenario() Scenario {
 
 func (d *Driver) faultRuns(runs int) { d.faultRunsOf(runs, "faults", "") }
 
-// faultRunsOf: name "faults" = random scenarios, failures anywhere; name "filefaults" = merge-heavy scenarios
-// with KeepN 1..3, failures only on operations whose class contains classFilter (the removals of the clean-up)
+// faultRunsOf: name "faults" = random scenarios, failures anywhere; "filefaults" / "mergefaults" = merge-heavy scenarios
+// with KeepN 1..3, failures only on operations whose class contains classFilter (the removals of the clean-up /
+// the merger's own operations)
 func (d *Driver) faultRunsOf(runs int, name, classFilter string) {
 	for i := 0; i < runs; {
 		scn := d.randomScenario("faults", 2, 3, true)
-		if name == "filefaults" {
+		if name == "filefaults" || name == "mergefaults" {
 			scn = d.mergeScenario()
 			scn.Opts.Path = "FS"
 			scn.Opts.KeepN = 1 + d.Rng.Intn(3)
@@ -413,6 +414,11 @@ func (d *Driver) faultRunsOf(runs int, name, classFilter string) {
 				op = c[d.Rng.Intn(len(c))]
 			}
 			f := ctl.Fault{Op: op, Stage: []string{"before", "partial", "after"}[d.Rng.Intn(3)]}
+			if name == "faults" && k == 0 && d.Rng.Intn(2) == 0 {
+				// a failure while the writer is being opened (listing snapshots / segments): OpenWriter returns the error and
+				// must leave nothing behind -- the directory is opened again right afterwards
+				f = ctl.Fault{Op: []int{0, 1, 1}[d.Rng.Intn(3)], Stage: "before"}
+			}
 			if d.Rng.Intn(3) == 0 {
 				f.Sticky = 1 + d.Rng.Intn(2)
 			}
@@ -669,6 +675,9 @@ func (d *Driver) RunFamily(fam string, runs int) {
 		d.faultRuns(runs)
 	case "filefaults":
 		d.faultRunsOf(runs, "filefaults", "RemoveEnd")
+	case "mergefaults":
+		// merge-heavy scenarios, failures only on the merger's own directory operations (Persist / Load of the merged segment)
+		d.faultRunsOf(runs, "mergefaults", "merg:")
 	case "close":
 		for i := 0; i < runs; i++ {
 			scn := d.mergeScenario()
